@@ -1,7 +1,7 @@
 import time, vf
 PID = "C01"
 HS = vf.VERIF + "/checks/C01/sched_harness.cpp"
-NSCEN = 9
+NSCEN = 13
 HH = vf.VERIF + "/checks/C01/hist_harness.cpp"
 SCHED = [vf.VERIF + "/engine/sched/sched.cpp", vf.VERIF + "/engine/sched/log_stub.cpp"]
 STUB = [vf.VERIF + "/engine/sched/log_stub.cpp"]
